@@ -164,6 +164,18 @@ func (st *Stack) reloadOnce(names []string, reuseOpen bool) error {
 		newTables = append(newTables, rd)
 	}
 
+	// The tables have to form a stack of this handle's hash type
+	// before they replace the current ones: a handle that swapped
+	// in tables it cannot merge looks up to date afterwards, and
+	// its next Add commits.
+	var tabs []Table
+	for _, r := range newTables {
+		tabs = append(tabs, r)
+	}
+	if _, err := NewMerged(tabs, st.cfg.HashID); err != nil {
+		return err
+	}
+
 	// success. Swap.
 	st.stack = newTables
 	opened = nil
